@@ -9,6 +9,7 @@ Variants (DESIGN.md section 3.1):
   asan   gcc Debug (DEBUG_BUILD => library pre/post-conditions live), ASan + gating UBSan subset
   rel    the shipped configuration: RelWithDebInfo (-O2 -g -DNDEBUG), no sanitizer
   tsan   gcc Debug, TSan, force-included schedule-point header (AWS_C_COMMON_VERIF)
+  tsanrel  as tsan but RelWithDebInfo (-O2 -DNDEBUG)
   asanh  asan + force-included schedule-point header
   ubcen  census build: -fsanitize=undefined, recover=all (reports are notes, never gate)
 """
@@ -46,6 +47,12 @@ VARIANTS = {
     "tsan": dict(
         build_type="Debug",
         cflags="-O1 -g -fno-omit-frame-pointer -fsanitize=thread -Wno-error %s" % HOOK_FLAGS,
+        ldflags="-fsanitize=thread"),
+    # shipped optimisation level under TSan: library pre/post-conditions (which perform
+    # seq_cst loads of the very atomics under test) are compiled out
+    "tsanrel": dict(
+        build_type="RelWithDebInfo",
+        cflags="-fno-omit-frame-pointer -fsanitize=thread -Wno-error %s" % HOOK_FLAGS,
         ldflags="-fsanitize=thread"),
     "ubcen": dict(
         build_type="Debug",
@@ -137,18 +144,19 @@ def compile_harness(variant, sources, out_name, extra_cflags="", wrap=False, ext
     if mon:
         srcs.append(os.path.join(VERIF, "mon", "mon.c"))
     ld = v["ldflags"].split() + extra_ld.split()
+    # perturb.c is always linked (harnesses may use its API; tsan/asanh library objects reference
+    # verif_sched_point); the __wrap_pthread_* functions only when the link uses --wrap
+    if mon:
+        srcs.append(os.path.join(VERIF, "mon", "perturb.c"))
     if wrap:
         ld += ["-Wl," + ",".join("--wrap=" + s for s in WRAP_SYMS)]
-        srcs.append(os.path.join(VERIF, "mon", "perturb.c"))
-    elif variant in ("tsan", "asanh"):
-        # library objects reference verif_sched_point
-        srcs.append(os.path.join(VERIF, "mon", "perturb.c"))
+    else:
         cflags.append("-DVERIF_NO_WRAP=1")
     cmd = (["gcc"] + cflags + inc + srcs + [os.path.join(bdir, "libaws-c-common.a")]
            + ld + ["-lpthread", "-ldl", "-lm", "-o", out])
     if _run(cmd, log) != 0:
         raise BuildError("harness compile failed: %s (see %s)\n%s" %
-                         (out_name, log, open(log, errors="replace").read()[-3000:]))
+                         (out_name, log, open(log, errors="replace").read()[-1500:]))
     return out
 
 
